@@ -451,7 +451,7 @@ fn steer_case(ctx: &Ctx, idx: u64, r: &mut Rng) -> Case {
 
 fn random_case(ctx: &Ctx, r: &mut Rng) -> Case {
     let _ = ctx;
-    let kind = r.below(20);
+    let kind = r.below(23);
     let bufsize = *r.pick(&[1usize, 7, 4096, 4096, 65536]);
     let mut c = match kind {
         0 | 1 => {
@@ -610,6 +610,38 @@ fn random_case(ctx: &Ctx, r: &mut Rng) -> Case {
             let size = *r.pick(&[data.len() as u64, data.len() as u64 + 1, 0, 1, u64::MAX, data.len() as u64 / 2]);
             let input = streams.remove(0);
             Case { reader: Rd::Bcj2 { size }, input, extra: streams, class: "bcj2".into(), declared_dict: 0, bufsize, note: format!("{note} size={size}") }
+        }
+        19..=21 => {
+            // grammar-level XZ block headers: valid stream header, then a block header assembled from a
+            // small alphabet of meaningful bytes (sizes, filter ids, property sizes), with and without
+            // a correct CRC32 - the header is parsed before its CRC is checked
+            let check = *r.pick(&[0u8, 1, 4, 10]);
+            let mut b = vec![0xFD, b'7', b'z', b'X', b'Z', 0, 0, check];
+            let c = walk::crc32(&b[6..8]);
+            b.extend_from_slice(&c.to_le_bytes());
+            let wmax = if r.chance(1, 8) { 60 } else { 6 };
+            let words = 2 + r.usize_below(wmax);
+            let hlen = words * 4;
+            let alphabet = [0x00u8, 0x01, 0x02, 0x03, 0x04, 0x05, 0x06, 0x07, 0x08, 0x09, 0x0A, 0x0B, 0x21, 0x28, 0x29, 0x40, 0x80, 0xC0, 0xC3, 0xFF, 0x81];
+            let mut h = vec![(words - 1) as u8];
+            for _ in 1..hlen - 4 {
+                h.push(*r.pick(&alphabet));
+            }
+            if r.chance(1, 2) {
+                // trailing part looks like "... filter id, props size" ending exactly at the header end
+                let n = h.len();
+                let tail = r.pick(&[[0x21u8, 0x01], [0x03, 0x01], [0x04, 0x04], [0x21, 0x00]]);
+                h[n - 2] = tail[0];
+                h[n - 1] = tail[1];
+            }
+            let crc = if r.chance(1, 2) { walk::crc32(&h) } else { r.next_u32() };
+            h.extend_from_slice(&crc.to_le_bytes());
+            b.extend_from_slice(&h);
+            let n = r.usize_below(64);
+            b.extend(r.bytes(n));
+            let reader = Rd::Xz { multi: r.chance(1, 2) };
+            let d = declared_for(&reader, &b);
+            Case { reader, input: b, extra: vec![], class: "xz-block-header-grammar".into(), declared_dict: d, bufsize, note: format!("header {hlen} bytes") }
         }
         _ => {
             // valid streams concatenated / nested garbage
